@@ -36,6 +36,7 @@ func C01() *runner.Property {
 		ID: "C01", Level: "exploration",
 		Rule: driveRule + "Step oracle after every merge (result is the stored or the incoming version, the newer one, ties consistent with a tie table across instances and orders, untouched keys unchanged, application view = live entries); final oracle: all instances identical in (timestamp, deleted, value) per DBI/key (shadow mode: identical application DBIs too), " +
 			"the content is a highest-timestamp version of all versions ever written (native: the application's writes; shadow: versions observed being captured), convergence within N+1 rounds, and (native) the same application history replayed under other delivery orders ends in the same content. " +
+			"realloops: 2-4 real Sync loops on one bucket with application writers on 4 conflicting keys; once the writers stopped and every loop is idle (logical clock) all instances must be identical and (native) hold the highest-timestamp version written anywhere. " +
 			"Non-trivial = >= 1 key received >= 2 conflicting versions and >= 1 merge changed stored data; distinct by history.",
 		Assumptions: []string{"sweeper disabled", "shadow mode: all instances run on one host clock (the documented shared monotone clock)", "application writes are monotone per key per instance"},
 		BatchSize:   10, CaseTimeout: 180e9,
@@ -45,14 +46,35 @@ func C01() *runner.Property {
 			if tier == "thorough" {
 				n = 5000
 			}
-			return histCases(tier, seed, 0xC01, []int{15, 30}, n, 2)
+			cs := histCases(tier, seed, 0xC01, []int{15, 30}, n, 2)
+			r := rng.New(uint64(seed) ^ 0xC01F)
+			nf := 12
+			if tier == "thorough" {
+				nf = 120
+			}
+			for i := 0; i < nf; i++ {
+				q := quietFleet{Native: i%2 == 0, Padding: i%5 == 4, N: 2 + i%3, Writes: 15 + r.Intn(40), Seed: r.U64()}
+				cs = append(cs, runner.MkCase("realloops", fmt.Sprintf("%d-native=%v-n%d", i, q.Native, q.N), q))
+			}
+			return cs
 		},
 		Run: func(c runner.Case, env *runner.Env) (res runner.Result) {
+			res.Key = c.ID
+			if c.Family == "realloops" {
+				var q quietFleet
+				runner.Params(c, &q)
+				RunConvergingFleet(q, env, &res)
+				return
+			}
 			var h Hist
 			runner.Params(c, &h)
-			res.Key = c.ID
 			RunHist(h, env, &res, "C01")
 			return
 		},
 	}
+}
+
+// HistCases exposes the history generator to other checks (C14's write monitor).
+func HistCases(tier string, seed int64, salt uint64, n int) []runner.Case {
+	return histCases(tier, seed, salt, []int{20, 40}, n, 1)
 }
